@@ -315,6 +315,62 @@ fn one_concurrent_change(run: &Run, case: u64) {
     }
 }
 
+/// Writes that fail part-way: the backup runs in a child process under a file-size limit of a
+/// few hundred bytes, so that the kernel writes part of a block (or hunk) and then refuses.
+/// Whatever is left behind, and whatever a later backup without the limit adds, must conform.
+fn partial_writes(run: &Run) {
+    let exe = std::env::current_exe().expect("exe");
+    for (i, limit) in [60u64, 150, 400, 700].into_iter().enumerate() {
+        let mut rng = Rng::for_case(run.seed, i as u64, 24);
+        let mut spec = Snapshot::new();
+        spec.insert("/".into(), Node::dir());
+        for (name, len) in [("/a", 10usize), ("/b", 30), ("/zlarge1", 2500), ("/zlarge2", 1700)] {
+            let mut n = Node::file(rng.bytes(len));
+            n.mtime_s = 1_600_000_000;
+            spec.insert(name.into(), n);
+        }
+        let w = World::with_spec("c13p", spec, GenParams::small(1000, 16), run.seed);
+        let o = Opts { hunk: 5, block: 1000, cap: 16 };
+        let outp = std::process::Command::new(&exe)
+            .arg("c04-child")
+            .arg(&w.arch)
+            .arg(&w.src)
+            .arg(o.hunk.to_string())
+            .arg(o.block.to_string())
+            .arg(o.cap.to_string())
+            .arg(limit.to_string())
+            .output()
+            .expect("spawn child");
+        run.eval();
+        if !String::from_utf8_lossy(&outp.stdout).contains("RESULT ") {
+            run.inconclusive(format!("partial-write child did not report (limit {limit})"));
+            continue;
+        }
+        run.count("backups_under_a_file_size_limit", 1);
+        let mut sources = BTreeMap::new();
+        sources.insert(0u32, w.snap.clone());
+        sources.insert(1u32, w.snap.clone());
+        let replay = json!({"partial_writes": true, "limit": limit});
+        let raw = fmt06::read_archive(&w.arch, true);
+        if let Err((sig, d)) = check_format(&raw, &sources) {
+            run.violation(format!("format-after-partial-write:{sig}"), format!("backup under a file-size limit of {limit} bytes: {d}"), replay);
+            return;
+        }
+        let f = cs::backup(cs::local(&w.arch), &w.src, o, &[], None);
+        let raw = fmt06::read_archive(&w.arch, true);
+        match check_format(&raw, &sources) {
+            Ok(c) => {
+                run.count("archive_states_checked", 2);
+                run.count("addresses_checked", c.addrs);
+            }
+            Err((sig, d)) => {
+                run.violation(format!("format-after-partial-write:{sig}"), format!("backup under a file-size limit of {limit} bytes, then a backup without it ({}): {d}", f.describe()), replay);
+                return;
+            }
+        }
+    }
+}
+
 /// A band with more than 10 000 hunks crosses into the second hunk subdirectory.
 fn many_hunks(run: &Run) {
     let sc = Scratch::new("c13big");
@@ -366,10 +422,13 @@ pub fn run(tier: Tier, replay: Option<Value>) -> i32 {
     if replay.is_none() {
         many_hunks(&run);
     }
+    if replay.is_none() || replay.as_ref().and_then(|r| r.get("partial_writes")).is_some() {
+        partial_writes(&run);
+    }
     run.finish(
-        "histories as in C02 with options drawn to produce every layout (1-entry hunks, 1-byte blocks, small-file cap 0/1, hunks overflowing through a combined flush), plus one band of 10 051 one-entry hunks (crossing i/00001); plus backups during which the source changes underneath (from the change callback of one entry, 1-3 files sorting after it -- already listed and stat'ed, not yet read -- are truncated, emptied, extended, replaced or removed: the size clause is then waived for those files, everything else must hold); after every archive-changing step, including interrupted backups, the harness's own reader (std::fs + raw Snappy + serde_json::Value + BLAKE2b) checks: band directory names, head and tail fields, tail hunk count == hunk files, hunk files at their canonical paths numbered 0..m-1, each hunk decodes and is non-empty, apaths valid and strictly increasing within and across hunks, kinds, addrs only on files with lengths summing to the file's size in that version's source snapshot, target exactly on symlinks, every block under its first three hex digits and named by the BLAKE2b-512 of its content, every address inside its block. Non-trivial = history producing bands with different hunk counts.",
+        "histories as in C02 with options drawn to produce every layout (1-entry hunks, 1-byte blocks, small-file cap 0/1, hunks overflowing through a combined flush), plus one band of 10 051 one-entry hunks (crossing i/00001); plus four backups run in a child process under a file-size limit of 60-700 bytes (writes that fail part-way), each followed by a backup without the limit; plus backups during which the source changes underneath (from the change callback of one entry, 1-3 files sorting after it -- already listed and stat'ed, not yet read -- are truncated, emptied, extended, replaced or removed: the size clause is then waived for those files, everything else must hold); after every archive-changing step, including interrupted backups, the harness's own reader (std::fs + raw Snappy + serde_json::Value + BLAKE2b) checks: band directory names, head and tail fields, tail hunk count == hunk files, hunk files at their canonical paths numbered 0..m-1, each hunk decodes and is non-empty, apaths valid and strictly increasing within and across hunks, kinds, addrs only on files with lengths summing to the file's size in that version's source snapshot, target exactly on symlinks, every block under its first three hex digits and named by the BLAKE2b-512 of its content, every address inside its block. Non-trivial = history producing bands with different hunk counts.",
         &["doc/format.md says the address length key is 'length'; conserve writes and reads 'len' — the reader follows the code (noted in DESIGN.md)", "snap, serde_json, blake2-rfc trusted"],
         None,
-        &[("archive_states_checked", 100), ("states_after_interrupted_backup", 5), ("addresses_checked", 500), ("bands_with_more_than_10000_hunks", 1), ("backups_with_source_changing_underneath", 100), ("victims_recorded_with_a_size_other_than_the_listed_one", 10)],
+        &[("archive_states_checked", 100), ("states_after_interrupted_backup", 5), ("addresses_checked", 500), ("bands_with_more_than_10000_hunks", 1), ("backups_with_source_changing_underneath", 100), ("backups_under_a_file_size_limit", 3), ("victims_recorded_with_a_size_other_than_the_listed_one", 10)],
     )
 }
